@@ -791,13 +791,57 @@ def comprehension(X, st, node, kind):
     return out
 
 
+co_names_has = z3.Function("co_names_has", core.Opq, core.StrS, z3.BoolSort())  # name in code.co_names
+
+
 def _comprehension(X, st, node, gen, kind, itv):
+    if isinstance(itv, core.VOpq) and itv.tag == "attr:co_names" and kind == "dict":
+        # {n: ... for n in code.co_names if ...}: the names a code object refers to, as a set of strings
+        C = itv.t
+        desc = IterDesc(core.Key, None, lambda k: VKey(k), guard=lambda k: z3.And(core.Key.is_KStr(k), co_names_has(C, core.Key.ks(k))), ordered=False)
+        if gen.ifs:
+            desc = filtered_desc(X, st, gen, desc)
+        return _comprehension_desc(X, st, node, gen, kind, desc)
     if isinstance(itv, core.VOpq):
         # a comprehension over an opaque python collection (e.g. code.co_names): an opaque collection that
         # is a deterministic function of it
         f = z3.Function(f"comprehension_l{node.lineno}", itv.t.sort(), core.Opq)
         return [Res(st, core.VOpq(f(itv.t), "opaque-collection"))]
     desc = iter_desc(X, st, itv)
+    return _comprehension_desc(X, st, node, gen, kind, desc)
+
+
+def filtered_desc(X, st, gen, desc):
+    """`... for x in it if c1 if c2`: the filters, evaluated once at a generic key, become part of the domain.
+    Only side-effect-free filters that evaluate along a single non-raising path are modelled."""
+    k0 = z3.Const(f"fk!{core.uid()}", desc.ksort)
+    sp = st.fork()
+    sp.pc.append(desc.guard(k0))
+    outs = X.assign(sp, gen.target, desc.item(k0))
+    if len(outs) != 1 or outs[0].kind != "next":
+        raise Unsupported("comprehension filter: target assignment")
+    base_len = len(outs[0].st.pc)
+    paths = [(outs[0].st, z3.BoolVal(True))]
+    for c in gen.ifs:
+        nxt = []
+        for cur, acc in paths:
+            for r in X.ev(cur, c):
+                if r.exc is not None:
+                    raise Unsupported("comprehension filter that may raise")
+                nxt.append((r.st, z3.And(acc, X.truth(r.st, r.v))))
+        paths = nxt
+    for cur, _ in paths:
+        if any(cur.heap.get(oid) is not o for oid, o in st.heap.items()):
+            raise Unsupported("comprehension filter with side effects")
+    cond = z3.Or([z3.And(*(list(cur.pc[base_len:]) + [acc])) for cur, acc in paths])
+    guard0 = desc.guard
+    d2 = IterDesc(desc.ksort, None, desc.item, guard=lambda k: z3.And(guard0(k), z3.substitute(cond, (k0, k))), ordered=desc.ordered)
+    if hasattr(desc, "dict_obj"):
+        d2.dict_obj = desc.dict_obj
+    return d2
+
+
+def _comprehension_desc(X, st, node, gen, kind, desc):
     saved = dict(st.locals)
     if kind == "dict":
         elt_nodes = [node.key, node.value]
